@@ -225,9 +225,9 @@ func (c *Ctx) WantSample(label string) bool { return c.sampleBy[label] < 3 && le
 
 // Report handles a finding: confirm by re-evaluating the replayable case five times through the
 // registered evaluator, then classify as known finding or violation.
-func (c *Ctx) Report(f *Finding, mk func() *Case) {
+func (c *Ctx) Report(f *Finding, mk func() *Case) (known bool) {
 	if f == nil {
-		return
+		return false
 	}
 	for _, k := range c.known {
 		if k.Status == "open" && k.Property == c.Property && (k.Class == "" || k.Class == f.Class) && (k.re == nil || k.re.MatchString(f.Subject)) {
@@ -235,7 +235,7 @@ func (c *Ctx) Report(f *Finding, mk func() *Case) {
 			if _, ok := c.R.KnownEx[k.ID]; !ok {
 				c.R.KnownEx[k.ID] = strconv.Quote(f.Subject) + ": " + f.Detail
 			}
-			return
+			return true
 		}
 	}
 	c.R.NViolations++
@@ -253,22 +253,23 @@ func (c *Ctx) Report(f *Finding, mk func() *Case) {
 		}
 	}
 	if n >= 3 || len(c.R.Violations) >= 25 {
-		return
+		return false
 	}
 	cs := mk()
 	ev := evaluators[cs.Kind]
 	if ev == nil {
 		c.Broken("no evaluator for case kind %q", cs.Kind)
-		return
+		return false
 	}
 	for i := 0; i < 5; i++ {
 		g := ev(cs)
 		if g == nil || g.Class != f.Class || g.Detail != f.Detail {
 			c.Broken("finding did not reproduce through the replay evaluator (run %d): first=%+v again=%+v case=%s", i, f, g, mustJSON(cs))
-			return
+			return false
 		}
 	}
 	c.R.Violations = append(c.R.Violations, &Violation{Property: c.Property, Finding: f, Case: cs})
+	return false
 }
 
 func mustJSON(v any) string {
